@@ -150,12 +150,12 @@ pub fn setup_files() {
 }
 
 pub fn new_worker() -> Worker {
-    let mut it = Interp::bare().expect("interpreter");
+    let mut it = Interp::must_bare();
     it.it.register_library_factory(LibraryFactory::Native(
         library_name!("lib4", "native"),
         Box::new(|| "abcd".chars().enumerate().map(|(i, c)| (c.to_string(), Value::Number(Number::Integer(i as i32 + 1)))).collect()),
     ));
-    it.it.register_library_factory(LibraryFactory::from_char_stream(&library_name!("lib4", "src"), LIB_SRC.chars()).expect("library source"));
+    it.it.register_library_factory(LibraryFactory::from_char_stream(&library_name!("lib4", "src"), LIB_SRC.chars()).unwrap_or_else(|e| crate::drive::impl_fail(&format!("the source of (lib4 src) is rejected: {}", e))));
     it.it.program_directory = Some(scratch());
     Worker { it }
 }
